@@ -84,9 +84,9 @@ def emit_tag(f):
         a = ''
     if sp.get('spaces'):
         a = a.replace('<', ' < ').replace('>', ' >').replace(':', ' : ')
-    parts = [str(f.id), f.req]
+    parts = [('0' + str(f.id)) if sp.get('padid') else str(f.id), f.req]   # zero-padded decimal ids are decimal
     if sp.get('omit_default_req') and f.req == 'default' and not a and not f.nocopy:
-        parts = [str(f.id)]
+        parts = [parts[0]]
     else:
         if a or f.nocopy:
             parts.append(a)
